@@ -770,6 +770,11 @@ impl Context {
                     is_const,
                 )
             }
+            // map literals nested inside a list/set/map literal
+            (
+                Literal::Map(_) | Literal::List(_),
+                CodegenTy::Map(_, _) | CodegenTy::BTreeMap(_, _),
+            ) => self.lit_as_rvalue(lit, ty)?,
             _ => panic!("unexpected literal {:?} with ty {:?}", lit, ty),
         })
     }
